@@ -3,9 +3,15 @@ Line-protocol driver for the C20 models.  Parsing glue only.
 ops: rot2 c s | rot3 x|y|z c s | shear2 tp ts | about2 cx cy a b tx c d ty | about3 cx cy cz l₁…l₉ t₁ t₂ t₃
      scalefac n k₁…k_n | scalescalar k n | tcoords h w | axis2 c s | quat w x y z | rodrigues ax ay az c s
      quatk w x y z   (K(R(q))·q, should be q for unit q)
+     centres n x₁ y₁ …            centre of mass and centre of bounds of a 2-D point set
+     obj2 <obj> <op>               <obj> = cloud n x₁ y₁ … | mesh n x₁ y₁ … | image h w
+                                   <op>  = scale k | scalearr kx ky | rotate c s | shear tp ts | affine a b tx c d ty
+     obj3 <obj> <op>               <obj> = cloud n x₁ y₁ z₁ … | mesh … | image a b c ;  <op> = scale k | rotate c s | shear tp ts
+     scalefull coded|fixed scalar k <n|none>  /  scalefull coded|fixed array n k₁…k_n <n|none>
+     identity <Class> n | tcoordsshape h w | aa3defined c s | table
 -/
 import MenpoModel.Core.Codec
-import MenpoModel.Core.C20
+import MenpoModel.Core.C20Ext
 
 namespace MenpoModel.Drive.C20
 open MenpoModel.Codec MenpoModel.C20
@@ -18,7 +24,100 @@ def pA2 : P Aff2 := do
   let a ← pRat; let b ← pRat; let tx ← pRat; let c ← pRat; let d ← pRat; let ty ← pRat
   pure ⟨a, b, tx, c, d, ty⟩
 
+def pV2 : P V2 := do let x ← pRat; let y ← pRat; pure ⟨x, y⟩
+def fV2 (v : V2) : String := fmtRats [v.x, v.y]
+def fA3 (a : Aff3) : String := fL3 a.l ++ " " ++ fV3 a.t
+
+def pObj2 : P Obj2 := do
+  let k ← tok
+  if k == "cloud" then do let pts ← pList pV2; pure (.cloud pts)
+  else if k == "mesh" then do let pts ← pList pV2; pure (.mesh pts [])
+  else if k == "image" then do let h ← pNat; let w ← pNat; pure (.image h w)
+  else failure
+
+def pObj3 : P Obj3 := do
+  let k ← tok
+  if k == "cloud" then do let pts ← pList pV3; pure (.cloud pts)
+  else if k == "mesh" then do let pts ← pList pV3; pure (.mesh pts [])
+  else if k == "image" then do let a ← pNat; let b ← pNat; let c ← pNat; pure (.image a b c)
+  else failure
+
+def pONat : P (Option Nat) := do
+  let t ← tok
+  if t == "none" then pure none else match t.toNat? with
+    | some n => pure (some n)
+    | none => failure
+
+def pScaleArg : P ScaleArg := do
+  let k ← tok
+  if k == "scalar" then do let x ← pRat; pure (.scalar x)
+  else if k == "array" then do let ks ← pList pRat; pure (.array ks)
+  else failure
+
+def clsOfName (s : String) : Option Cls :=
+  [Cls.homogeneous, .affine, .similarity, .translation, .rotation, .uniformScale, .nonUniformScale, .transformChain].find?
+    (fun k => k.name == s)
+
+def fErr : Err → String
+  | .valueError => "err ValueError"
+  | .typeError => "err TypeError"
+
+def fExA2 : Except Err Aff2 → String
+  | .ok m => "ok " ++ fA2 m
+  | .error e => fErr e
+
+def stepExt (toks : List String) : Option String :=
+  match toks with
+  | "centres" :: r => match runP (pList pV2) r with
+    | some pts => some ("ok " ++ fV2 (centreOfMass2 pts) ++ " " ++ fV2 (centreOfBounds2 pts))
+    | none => some "bad-op"
+  | "obj2" :: r =>
+    match runP (do let o ← pObj2; let op ← tok; let args ← pMany pRat (if op == "affine" then 6 else if op == "scale" then 1 else 2)
+                   pure (o, op, args)) r with
+    | some (o, "scale", [k]) => some (match scaleAboutCentre (.d2 o) k with
+        | .a2 m => "ok " ++ fA2 m
+        | .a3 m => "ok " ++ fA3 m)
+    | some (o, "scalearr", [kx, ky]) => some ("ok " ++ fA2 (scaleAboutCentreArr2 o kx ky))
+    | some (o, "rotate", [c, s]) => some (fExA2 (rotateCcwAboutCentre (.d2 o) c s))
+    | some (o, "shear", [tp, ts]) => some (fExA2 (shearAboutCentre (.d2 o) tp ts))
+    | some (o, "affine", [a, b, tx, c, d, ty]) => some ("ok " ++ fA2 (aboutCentre2 o.centre ⟨a, b, tx, c, d, ty⟩))
+    | _ => some "bad-op"
+  | "obj3" :: r =>
+    match runP (do let o ← pObj3; let op ← tok; let args ← pMany pRat (if op == "scale" then 1 else 2); pure (o, op, args)) r with
+    | some (o, "scale", [k]) => some (match scaleAboutCentre (.d3 o) k with
+        | .a2 m => "ok " ++ fA2 m
+        | .a3 m => "ok " ++ fA3 m)
+    | some (o, "rotate", [c, s]) => some (fExA2 (rotateCcwAboutCentre (.d3 o) c s))
+    | some (o, "shear", [tp, ts]) => some (fExA2 (shearAboutCentre (.d3 o) tp ts))
+    | _ => some "bad-op"
+  | "scalefull" :: which :: r =>
+    match runP (do let a ← pScaleArg; let n ← pONat; pure (a, n)) r with
+    | some (a, n) =>
+      let res := if which == "fixed" then scaleFactoryFixed a n else scaleFactoryCoded a n
+      some (match res with
+        | .ok o => s!"ok {o.cls.name} {o.nDims} " ++ fmtRats o.diag
+        | .error e => fErr e)
+    | none => some "bad-op"
+  | ["identity", cls, n] => match clsOfName cls, n.toNat? with
+    | some k, some n => some (match initIdentity k n with
+        | .ok (k', n') => s!"ok {k'.name} {n'}"
+        | .error e => fErr e)
+    | _, _ => some "bad-op"
+  | ["tcoordsshape", h, w] => match h.toNat?, w.toNat? with
+    | some h, some w => some (match tcoordsToImageShape h w, imageToTcoordsShape h w with
+        | some t, some ti => "ok " ++ fA2 t ++ " " ++ fA2 ti
+        | _, _ => "err ValueError")
+    | _, _ => some "bad-op"
+  | "aa3defined" :: r => match runP (do let c ← pRat; let s ← pRat; pure (c, s)) r with
+    | some (c, s) => some (if axisAngle3Defined c s then "ok 1" else "ok 0")
+    | none => some "bad-op"
+  | ["table"] => some ("ok " ++ " ".intercalate (modelCtorTable.map fun r => s!"{r.owner}|{r.name}|{r.arg}|{r.result}|{r.nDims}"))
+  | _ => none
+
 def step (toks : List String) : String :=
+  match stepExt toks with
+  | some r => r
+  | none =>
   match toks with
   | "rot2" :: r => match runP (do let c ← pRat; let s ← pRat; pure (c, s)) r with
     | some (c, s) => "ok " ++ fA2 (rot2 c s)
